@@ -94,12 +94,17 @@ def quaternion_from_two_vectors_around_axis(p1, p2, axis):
         angle *= -1
     return R.from_quat([*(axis*np.sin(-angle / 2)), np.cos(-angle/2)])
 
-def guess_elements_from_masses(masses, max_delta=1e-2):
+def guess_elements_from_masses(masses, max_delta=2e-2):
     def find_element(elmass):
+        # closest element whose mass is within max_delta (on either side) of the given mass
+        closest = None
         for sym, mass in ATOMIC_MASSES.items():
-            if elmass - mass < max_delta:
-                return sym
-        raise Exception("no element matching mass %8.5f in elements list. Please add one?")
+            delta = abs(elmass - mass)
+            if delta < max_delta and (closest is None or delta < closest[0]):
+                closest = (delta, sym)
+        if closest is None:
+            raise Exception("no element matching mass %8.5f in elements list. Please add one?" % elmass)
+        return closest[1]
 
     return [find_element(m) for m in masses]
 
